@@ -67,10 +67,34 @@ inline json project_state(const Opm::ScheduleState& st, bool maskActionEvent = f
     json o = json::object();
 #define VF_MEMBER(m) o[#m] = pack_hash(st.m.get());
     VF_MEMBER(gconsale) VF_MEMBER(gconsump) VF_MEMBER(gecon) VF_MEMBER(guide_rate) VF_MEMBER(wlist_manager)
-    VF_MEMBER(well_order) VF_MEMBER(group_order) VF_MEMBER(actions) VF_MEMBER(udq) VF_MEMBER(udq_active)
+    VF_MEMBER(well_order) VF_MEMBER(group_order) VF_MEMBER(udq) VF_MEMBER(udq_active)
     VF_MEMBER(pavg) VF_MEMBER(wtest_config) VF_MEMBER(glo) VF_MEMBER(network) VF_MEMBER(network_balance)
-    VF_MEMBER(rpt_config) VF_MEMBER(rft_config) VF_MEMBER(rst_config) VF_MEMBER(bhp_defaults) VF_MEMBER(source)
+    VF_MEMBER(rpt_config) VF_MEMBER(rst_config) VF_MEMBER(bhp_defaults) VF_MEMBER(source)
 #undef VF_MEMBER
+    {
+        // ACTIONX definitions: the stored body keywords cache their SI conversion lazily (a keyword that has been
+        // applied once serialises differently from one that has not), so actions are projected through accessors
+        json acts = json::array();
+        for (const auto& a : st.actions()) {
+            json ja = {{"name", a.name()}, {"id", a.id()}, {"max_run", a.max_run()}, {"min_wait", hexd(a.min_wait())},
+                       {"start", static_cast<long>(a.start_time())}, {"body", a.keyword_strings()}};
+            json conds = json::array();
+            for (const auto& c : a.conditions())
+                conds.push_back({c.lhs.quantity, c.lhs.args, c.rhs.quantity, c.rhs.args, static_cast<int>(c.logic), static_cast<int>(c.cmp), c.cmp_string});
+            ja["conds"] = conds;
+            acts.push_back(ja);
+        }
+        o["actions"] = acts;
+    }
+    {
+        // RFT configuration: kept in unordered maps (serialisation order depends on the insertion history), so it is
+        // projected well by well through its queries
+        const auto& rft = st.rft_config();
+        json jr = {{"active", rft.active()}};
+        for (const auto& wname : st.well_order().names())
+            jr[wname] = {rft.rft(wname), rft.plt(wname), !rft.well_open(wname).has_value()};
+        o["rft_config"] = jr;
+    }
     // wells and groups one by one, in schedule order
     json wells = json::object();
     for (const auto& wname : st.well_order().names()) {
@@ -127,7 +151,11 @@ inline json project_state(const Opm::ScheduleState& st, bool maskActionEvent = f
     o["times"] = {Opm::TimeService::to_time_t(st.start_time()), st.sim_step(), st.month_num(), st.year_num(),
                   st.first_in_month(), st.first_in_year(), st.save(), st.rptonly()};
     o["next_tstep"] = st.next_tstep.has_value() ? pack_hash(*st.next_tstep) : std::string("none");
-    o["target_wellpi"] = pack_hash(st.target_wellpi);
+    {
+        std::map<std::string, std::string> tw;                 // unordered in the library
+        for (const auto& [w, v] : st.target_wellpi) tw[w] = hexd(v);
+        o["target_wellpi"] = tw;
+    }
     return o;
 }
 
